@@ -31,7 +31,7 @@ Proof.
 Qed.
 
 Lemma detail_eqb_spec a b : detail_eqb a b = true <-> a = b.
-Proof. apply pair_eqb_spec. exact nat_eqb_spec. exact dkind_eqb_spec. Qed.
+Proof. apply pair_eqb_spec. exact text_eqb_spec. exact dkind_eqb_spec. Qed.
 
 Lemma details_eqb_spec a b : details_eqb a b = true <-> a = b.
 Proof. apply list_eqb_spec. exact detail_eqb_spec. Qed.
@@ -201,8 +201,8 @@ Qed.
 Lemma format_attachment_contains n t : Substring t (format_attachment n t).
 Proof.
   unfold format_attachment. destruct (existsb (Nat.eqb nl) t).
-  - exists (name_text n ++ t_open ++ [nl]), ([nl] ++ t_close ++ [nl]). repeat rewrite <- app_assoc. reflexivity.
-  - exists (name_text n ++ t_open), t_close. repeat rewrite <- app_assoc. reflexivity.
+  - exists (n ++ t_open ++ [nl]), ([nl] ++ t_close ++ [nl]). repeat rewrite <- app_assoc. reflexivity.
+  - exists (n ++ t_open), t_close. repeat rewrite <- app_assoc. reflexivity.
 Qed.
 
 Lemma nodupb_NoDup l : nodupb l = true -> NoDup l.
@@ -210,9 +210,12 @@ Proof.
   induction l as [|x l IH]; simpl; intro H; [constructor|].
   apply andb_true_iff in H as [H1 H2]. constructor; [|apply IH; exact H2].
   intro Hin. apply negb_true_iff in H1.
-  assert (existsb (Nat.eqb x) l = true); [|congruence].
-  apply existsb_exists. exists x. split; [exact Hin|apply Nat.eqb_refl].
+  assert (existsb (text_eqb x) l = true); [|congruence].
+  apply existsb_exists. exists x. split; [exact Hin|apply text_eqb_refl].
 Qed.
+
+Lemma name_eqb_spec a b : name_eqb a b = true <-> a = b.
+Proof. exact (text_eqb_spec a b). Qed.
 
 Local Arguments option_eqb : simpl never.
 
@@ -220,7 +223,7 @@ Local Arguments option_eqb : simpl never.
 Lemma d2s_scan_keeps special ds n t :
   NoDup (map fst ds) -> In (n, DText t) ds -> strip t <> [] ->
   let '(bin, emp, txt, sp) := d2s_scan special ds in
-  if option_eqb Nat.eqb (Some n) special
+  if option_eqb name_eqb (Some n) special
   then sp = Some (strip t ++ [nl])
   else In (format_attachment n (strip t)) txt.
 Proof.
@@ -230,17 +233,17 @@ Proof.
   destruct Hin as [Heq|Hin].
   - injection Heq as -> ->. simpl.
     destruct (strip t) eqn:Es; [congruence|].
-    destruct (option_eqb Nat.eqb (Some n) special); simpl; [reflexivity|left; reflexivity].
+    destruct (option_eqb name_eqb (Some n) special); simpl; [reflexivity|left; reflexivity].
   - specialize (IH Hnd' Hin Hne).
     assert (Hmn : m <> n).
     { intro; subst m. apply Hnotin. change n with (fst (n, DText t)). apply in_map. exact Hin. }
     destruct (dtext k) as [tk|]; [|exact IH].
     destruct (strip tk) eqn:Etk; [exact IH|].
-    destruct (option_eqb Nat.eqb (Some m) special) eqn:Em; simpl.
-    + destruct (option_eqb Nat.eqb (Some n) special) eqn:En; [|exact IH].
+    destruct (option_eqb name_eqb (Some m) special) eqn:Em; simpl.
+    + destruct (option_eqb name_eqb (Some n) special) eqn:En; [|exact IH].
       exfalso. destruct special as [s|]; unfold option_eqb in Em, En; [|discriminate].
-      apply Nat.eqb_eq in Em, En. congruence.
-    + destruct (option_eqb Nat.eqb (Some n) special); [exact IH|right; exact IH].
+      apply name_eqb_spec in Em, En. congruence.
+    + destruct (option_eqb name_eqb (Some n) special); [exact IH|right; exact IH].
 Qed.
 
 (* the text _details_to_str makes contains every text attachment that is not blank *)
@@ -261,7 +264,7 @@ Proof.
     { unfold txt1. destruct (negb (is_nil txt) && negb (ends_nl (last txt []))); [apply in_or_app; left|]; exact Hx. }
     unfold txt2. destruct sp; [apply in_or_app; left|]; assumption. }
   assert (Hsub : exists x, In x txt2 /\ Substring (strip t) x).
-  { destruct (option_eqb Nat.eqb (Some n) special).
+  { destruct (option_eqb name_eqb (Some n) special).
     - subst sp. exists (strip t ++ [nl]). split.
       + unfold txt2. apply in_or_app. right. left. reflexivity.
       + apply Substring_app_l. apply Substring_refl.
